@@ -916,6 +916,14 @@ def _small_scope():
 
 
 def search(ctx, hints):
+    # a case on which the correspondence saw the real code disagree with the model (or raise): evaluate the property's own
+    # predicate for that item on exactly that input first
+    for dg in (hints or {}).get('disagreements', [])[:50]:
+        case = {k: v for k, v in dg['case'].items() if k != 'point'} if isinstance(dg.get('case'), dict) else None
+        if case is not None and dg.get('item') in PREDS:
+            d = eval_pred(dg['item'], case)
+            if d is not None:
+                return {'item': dg['item'], 'input': case, 'detail': d}
     for c in _corpus():
         d = eval_pred(c['item'], c['input'])
         if d is not None:
